@@ -47,7 +47,9 @@ class PureEval:
 
 	def deref(self, v):
 		if isinstance(v, Ref):
-			return (self.old_heap if self.in_old else self.heap)[v.addr]
+			if self.in_old and v.addr in self.old_heap:
+				return self.old_heap[v.addr]
+			return self.heap[v.addr]   # objects created after entry have no old state
 		return v
 
 	def lookup(self, name):
@@ -93,8 +95,14 @@ class PureEval:
 		return truth(v)
 
 	def p_BoolOp(self, node):
-		vals = [self.tr(self.ev(v)) for v in node.values]
-		return wrap_bool(simp_keep(mk_and(*vals) if isinstance(node.op, ast.And) else mk_or(*vals)))
+		vals = []
+		is_and = isinstance(node.op, ast.And)
+		for v in node.values:
+			t = self.tr(self.ev(v))
+			if isinstance(t, bool) and t is (not is_and):
+				return t      # concrete short circuit (the rest may not even be well defined)
+			vals.append(t)
+		return wrap_bool(simp_keep(mk_and(*vals) if is_and else mk_or(*vals)))
 
 	def p_UnaryOp(self, node):
 		v = self.ev(node.operand)
@@ -152,6 +160,8 @@ class PureEval:
 			raise Unsupported(f'record has no field {a}')
 		if isinstance(obj, SObj):
 			return obj.getattr(a)
+		if isinstance(obj, SRec):
+			return self.deref(obj.getattr(a))
 		if isinstance(obj, SSlice):
 			return getattr(obj, a)
 		if isinstance(obj, (SArr, SSeq)) and a == 'length':
@@ -209,7 +219,10 @@ class PureEval:
 				finally:
 					self.in_old = saved
 			if name == 'implies':
-				a, b = [self.tr(self.ev(x)) for x in node.args]
+				a = self.tr(self.ev(node.args[0]))
+				if a is False:
+					return True
+				b = self.tr(self.ev(node.args[1]))
 				return wrap_bool(mk_implies(a, b))
 			if name == 'iff':
 				a, b = [self.tr(self.ev(x)) for x in node.args]
@@ -276,6 +289,8 @@ def simp_keep(t):
 
 
 def ite_values(c, a, b):
+	if isinstance(a, (bool, SBool)) and isinstance(b, (bool, SBool)):
+		return SBool(z3.If(c, bool_term(a), bool_term(b)))
 	if is_intlike(a) and is_intlike(b):
 		return SInt(z3.If(c, int_term(a), int_term(b)))
 	if isinstance(a, (SReal, float)) or isinstance(b, (SReal, float)):
